@@ -85,8 +85,8 @@ def n_cast(dt, text, denotes=None):
     return {"str": cps(text)}
 
 
-def plant_file(path, recs, gz, mtime=None, mtime_ns=None):
-    data = "".join(n_line(r) + "\n" for r in recs).encode("utf-8")
+def plant_file(path, recs, gz, mtime=None, mtime_ns=None, enc=None):
+    data = "".join(n_line(r) + "\n" for r in recs).encode(enc or "utf-8")
     if gz:
         with gzip_mod.open(path, "wb") as f:
             f.write(data)
@@ -138,41 +138,141 @@ def mk_schema(sj):
     return {uncps(t["name"]): mk_fields(t["fields"]) for t in sj}
 
 
-def observe_rel(d, name, readable, sel=None):
-    """files + reads of one relation through the public interfaces"""
+def enc_kw(enc):
+    """`encoding=` is handed over only when the case names one (else the documented default applies)"""
+    return {} if enc is None else {"encoding": enc}
+
+
+def encodable(text, enc):
+    if enc in (None, "utf-8"):
+        return True
+    lim = 256 if enc == "latin-1" else 128
+    return all(ord(ch) < lim for ch in text)
+
+
+def read_raw(db, name):
+    rel = db[name]
+    try:
+        out = []
+        try:
+            out.append(jraw(next(rel)))          # Relation.__next__, as in the class docstring
+        except StopIteration:
+            return out
+        out.extend(jraw(r) for r in rel)         # Relation.__iter__ for the rest
+        return out
+    finally:
+        rel.close()
+
+
+def read_cast(db, name):
+    rel = db[name]
+    try:
+        return [[v.j_val(x) for x in r] for r in rel]
+    finally:
+        rel.close()
+
+
+def observe_rel(d, name, readable, sel=None, enc=None):
+    """files + reads of one relation through the public interfaces; `sel`: None = no column-selecting reads,
+    "all" = select_from with its default columns=None, a list = explicit columns"""
     o = {"tx": os.path.isfile(os.path.join(d, name)), "gz": os.path.isfile(os.path.join(d, name + ".gz"))}
     if not readable:
         return o
+    kw = enc_kw(enc)
+    made = {}
 
-    def raw():
-        rel = tsdb.Database(d)[name]
-        try:
-            return [jraw(r) for r in rel]
-        finally:
-            rel.close()
-
-    def cast():
-        rel = tsdb.Database(d, autocast=True)[name]
-        try:
-            return [[v.j_val(x) for x in r] for r in rel]
-        finally:
-            rel.close()
-    o["raw"] = guarded(raw)
-    o["cast"] = guarded(cast)
+    def db(auto):
+        # one fresh Database (and one fresh autocast Database) per observation
+        if auto not in made:
+            made[auto] = tsdb.Database(d, autocast=auto, **kw)
+        return made[auto]
+    o["raw"] = guarded(lambda: read_raw(db(False), name))
+    o["cast"] = guarded(lambda: read_cast(db(True), name))
     if sel is not None:
-        cols = [uncps(c) for c in sel]
-        o["sel"] = guarded(lambda: [jraw(r) for r in tsdb.Database(d).select_from(name, cols)])
-        o["selcast"] = guarded(lambda: [[v.j_val(x) for x in r]
-                                        for r in tsdb.Database(d).select_from(name, cols, cast=True)])
-        o["selauto"] = guarded(lambda: [[v.j_val(x) for x in r]
-                                        for r in tsdb.Database(d, autocast=True).select_from(name, cols)])
-        o["open"] = guarded(lambda: _read_open(d, name))
+        args = () if sel == "all" else ([uncps(c) for c in sel],)
+        o["sel"] = guarded(lambda: [jraw(r) for r in db(False).select_from(name, *args)])
+        o["selcast"] = guarded(lambda: [[v.j_val(x) for x in r] for r in db(False).select_from(name, *args, cast=True)])
+        o["selauto"] = guarded(lambda: [[v.j_val(x) for x in r] for r in db(True).select_from(name, *args)])
+        o["open"] = guarded(lambda: _read_open(d, name, enc))
+        o["selraw"] = guarded(lambda: [jraw(r) for r in db(False)._select_raw(name, *args)])   # what TSQL reads through
     return o
 
 
-def _read_open(d, name):
-    with tsdb.open(d, name, encoding="utf-8") as f:
+def _read_open(d, name, enc=None):
+    with tsdb.open(d, name, encoding=enc or "utf-8") as f:
         return [cps(line) for line in f]
+
+
+SPELLINGS = ["same", "pathlib", "trailing_slash", "dotdot", "dot_relative", "relative", "symlink", "symlink_pathlib"]
+
+
+class Spelled:
+    """the same directory under another spelling: str / pathlib.Path, trailing slash, a detour through '..', relative
+    to the current directory (which is changed for the duration and restored), through a symbolic link"""
+
+    def __init__(self, path, how):
+        self.path, self.how, self.cwd = path, how or "same", None
+
+    def __enter__(self):
+        import pathlib
+        p, how = self.path, self.how
+        parent, base = os.path.dirname(p), os.path.basename(p)
+        if how == "pathlib":
+            return pathlib.Path(p)
+        if how == "trailing_slash":
+            return p + os.sep
+        if how == "dotdot":
+            return os.path.join(parent, base, os.pardir, base)
+        if how in ("relative", "dot_relative"):
+            self.cwd = os.getcwd()
+            os.chdir(parent)
+            return base if how == "relative" else os.path.join(os.curdir, base)
+        if how in ("symlink", "symlink_pathlib"):
+            link = os.path.join(parent, "link-to-" + base)
+            if not os.path.islink(link):
+                os.symlink(p, link)
+            return link if how == "symlink" else pathlib.Path(link)
+        return p
+
+    def __exit__(self, *exc):
+        if self.cwd is not None:
+            os.chdir(self.cwd)
+        return False
+
+
+class Watched:
+    """the iterable handed to tsdb.write: every time a record is asked for it notes what the directory looks
+    like at that moment (relation files present, temp files, whether the relation files still hold the bytes
+    they held before the call)"""
+
+    def __init__(self, d, name, recs):
+        self.d, self.name, self.recs, self.i, self.seen = d, name, recs, 0, []
+        self.before = self._bytes()
+
+    def _bytes(self):
+        out = []
+        for fn in (self.name, self.name + ".gz"):
+            p = os.path.join(self.d, fn)
+            if os.path.isfile(p):
+                with open(p, "rb") as f:
+                    out.append(f.read())
+            else:
+                out.append(None)
+        return out
+
+    def __iter__(self):
+        return self
+
+    def __next__(self):
+        now = self._bytes()
+        others = [fn for fn in os.listdir(self.d) if fn not in ("relations", self.name, self.name + ".gz")]
+        self.seen.append({"tx": now[0] is not None, "gz": now[1] is not None,
+                          "tmp": sum(1 for fn in others if fn.startswith(self.name) and fn.endswith(".tmp")),
+                          "same": now == self.before, "stray": sorted(fn for fn in others if not fn.endswith(".tmp"))})
+        if self.i >= len(self.recs):
+            raise StopIteration
+        self.i += 1
+        return self.recs[self.i - 1]
 
 
 def digest(d):
@@ -185,7 +285,7 @@ def digest(d):
     return h.hexdigest()
 
 
-IMPL_ONLY = ("listing", "digest")
+IMPL_ONLY = ("listing", "digest", "kept", "kept_cast", "stray", "selraw", "kept_meta", "schema_eq")
 
 
 def j_schema(sch):
@@ -322,7 +422,7 @@ def gen_write_op(rng, fields, nrec=None):
         else:
             recs[i] = recs[i][:-1]
     return {"k": "write", "recs": recs, "append": rng.random() < 0.45, "gzip": rng.random() < 0.35,
-            "schemafile": rng.random() < 0.2}
+            "schemafile": rng.random() < 0.2, "dir_spelling": rng.choice(SPELLINGS) if rng.random() < 0.3 else "same"}
 
 
 def gen_hist(rng, nops=None):
@@ -339,9 +439,10 @@ def gen_hist(rng, nops=None):
         else:
             ops.append({"k": "remove", "gz": rng.random() < 0.5})
     names = [f["name"] for f in fields]
-    sel = [rng.choice(names) for _ in range(rng.randrange(1, 4))]
+    sel = "all" if rng.random() < 0.15 else [rng.choice(names) for _ in range(rng.randrange(1, 4))]
     return {"kind": "hist", "op": "hist", "rel": rng.choice(["item", "item", "parse", "a", "item-set"]),
-            "fields": fields, "start": gen_start(rng, fields), "ops": ops, "sel": sel}
+            "fields": fields, "start": gen_start(rng, fields), "ops": ops, "sel": sel,
+            "enc": rng.choice([None, None, None, "utf-8"])}
 
 
 def exhaustive_hists(maxlen):
@@ -364,8 +465,11 @@ def exhaustive_hists(maxlen):
                 for k, (ri, a, g) in enumerate(combo):
                     recs = [] if ri == 0 else [[{"int": str(10 + k)}, {"str": cps("w%d\n@\\" % k)}]]
                     ops.append({"k": "write", "recs": recs, "append": a, "gzip": g, "schemafile": False})
+                # every history: files, raw and autocast read after every step; the column-selecting reads and
+                # tsdb.open too for all histories up to length 2 and the length-3 ones from two of the starts
+                full = L <= 2 or st in ("absent", "both_gz") or maxlen > 3
                 yield {"kind": "hist", "op": "hist", "rel": "item", "fields": fields, "start": start,
-                       "ops": ops, "sel": [cps("i-input"), cps("i-id")]}
+                       "ops": ops, "sel": [cps("i-input"), cps("i-id")] if full else None, "kept": False}
 
 
 def derive_schema(rng, S):
@@ -426,6 +530,7 @@ def db_fixed():
 
     def R(*cells):
         return [None if c is None else cps(c) for c in cells]
+    count = 0
     for with_float in (False, True):
         item = [F("i-id", ":integer", [":key"]), F("i-input", ":string"), F("i-wf", ":integer"), F("i-date", ":date")]
         rows = [R("0", "0", "0", "1-jan-1970"), R("-1", None, None, None), R("1", "zero", "1", "31-dec-1999 23:59:59"),
@@ -467,13 +572,23 @@ def db_fixed():
                 for names in (None, ["item", "q"], ["item-set", "set"], ["item-phenomenon", "item"]):
                     for dst in ("inplace", "new", "existing"):
                         for gz in (False, True):
+                            count += 1
                             yield {"kind": "db", "op": "db", "src_schema": S, "src_files": files,
                                    "src_autocast": autocast, "dst": dst,
+                                   # the destination spelled in every way: in place each spelling meets every schema
+                                   # kind, names subset and gzip flag over the block
+                                   "dst_spelling": SPELLINGS[(count // 2 if dst == "inplace" else count) % len(SPELLINGS)]
+                                   if dst != "new" else "same",
                                    "dst_files": None if dst == "inplace" else [] if dst == "new" else stale,
                                    "names": None if names is None else [cps(n) for n in names],
                                    "names_as": "list" if gz else "iter", "schema": schema, "gzip": gz,
+                                   "dst_old_schema": (reordered if T is not reordered else derived)
+                                   if dst == "existing" and (gz or names is None) else None,
+                                   "schema_via": "obj" if schema is None or with_float or names is not None
+                                   else ("path_dir", "str_file", "str_dir")[("inplace", "new", "existing").index(dst)],
                                    "watch": [cps("item"), cps("item-phenomenon"), cps("item-set"), cps("q"), cps("set")],
-                                   "sel": {uncps(t["name"]): [t["fields"][-1]["name"], t["fields"][0]["name"]] for t in T},
+                                   "sel": {uncps(t["name"]): ("all" if dst == "new" and gz else
+                                                              [t["fields"][-1]["name"], t["fields"][0]["name"]]) for t in T},
                                    "stream": "fixed"}
 
 
@@ -527,10 +642,15 @@ def gen_db(rng):
     sel = {}
     for t in T:
         fn = [f["name"] for f in t["fields"]]
-        sel[uncps(t["name"])] = [rng.choice(fn) for _ in range(rng.randrange(1, 4))]
+        sel[uncps(t["name"])] = "all" if rng.random() < 0.15 else [rng.choice(fn) for _ in range(rng.randrange(1, 4))]
+    has_float = any(f["dt"] == ":float" for sc in (S, schema or []) for t in sc for f in t["fields"])
+    via = "obj" if schema is None or has_float or rng.random() < 0.7 else rng.choice(["str_dir", "path_dir", "str_file", "path_file"])
     return {"kind": "db", "op": "db", "src_schema": S, "src_files": src_files, "src_autocast": src_autocast, "dst": dst,
             "dst_files": dst_files, "names": names, "names_as": rng.choice(["list", "list", "iter", "gen", "tuple"]),
-            "schema": schema, "gzip": rng.random() < 0.4,
+            "schema": schema, "schema_via": via, "gzip": rng.random() < 0.4,
+            "dst_spelling": rng.choice(SPELLINGS) if dst != "new" and rng.random() < 0.6 else "same",
+            "dst_old_schema": derive_schema(rng, S) if dst == "existing" and rng.random() < 0.5 else None,
+            "enc": rng.choice([None, None, None, "utf-8"]),
             "watch": [cps(n) for n in watch], "sel": sel}
 
 
@@ -683,10 +803,11 @@ def cr_hists():
         rec1 = [{"int": str(i)}, {"str": cps(val)}, {"str": cps("t")}]
         rec2 = [{"int": str(i + 100)}, {"str": cps("h")}, {"str": cps(val)}]
         for gz in (False, True):
-            ops = [{"k": "write", "recs": [rec1, rec2], "append": False, "gzip": gz, "schemafile": False},
-                   {"k": "write", "recs": [rec2, rec1], "append": True, "gzip": False, "schemafile": False},
-                   {"k": "write", "recs": [rec2], "append": False, "gzip": not gz, "schemafile": True},
-                   {"k": "write", "recs": [rec1], "append": True, "gzip": False, "schemafile": False}]
+            sp = lambda k: SPELLINGS[(i + k + 4 * gz) % len(SPELLINGS)]       # noqa: E731 - every spelling of the directory
+            ops = [{"k": "write", "recs": [rec1, rec2], "append": False, "gzip": gz, "schemafile": False, "dir_spelling": sp(0)},
+                   {"k": "write", "recs": [rec2, rec1], "append": True, "gzip": False, "schemafile": False, "dir_spelling": sp(1)},
+                   {"k": "write", "recs": [rec2], "append": False, "gzip": not gz, "schemafile": True, "dir_spelling": sp(2)},
+                   {"k": "write", "recs": [rec1], "append": True, "gzip": False, "schemafile": False, "dir_spelling": sp(3)}]
             start = {"tx": None, "gz": None}
             start["gz" if gz else "tx"] = {"recs": [[cps("7"), cps(val), cps(val + val)]], "mtime": 5}
             yield {"kind": "hist", "op": "hist", "rel": "item", "fields": fields, "start": start, "ops": ops,
@@ -747,10 +868,235 @@ def gen_hist_cr(rng):
             "sel": [rng.choice(names) for _ in range(rng.randrange(1, 3))], "stream": "cr"}
 
 
+
+# ---------------------------------------------------------------- encodings, malformed records, initialize_database
+
+ENC_VALUES = ["a", "\x7f", "\x80", "é", "\xff", "Ā", "€"]
+
+
+def enc_hists():
+    """`encoding=` through write / Database / open: every boundary value (last ASCII, first non-ASCII, last Latin-1,
+    first beyond) as an appended record and in the middle of an overwrite, plain and compressed"""
+    fields = [{"name": cps("i-id"), "dt": ":integer"}, {"name": cps("i-input"), "dt": ":string"}]
+
+    def rec(i, text):
+        return [{"int": str(i)}, {"str": cps(text)}]
+    for enc in ("latin-1", "ascii", "utf-8"):
+        base = "é\xff" if enc == "latin-1" else "e\x7f" if enc == "ascii" else "é€"
+        for g in (False, True):
+            for val in ENC_VALUES:
+                ops = [{"k": "write", "recs": [rec(1, base), rec(2, "x")], "append": False, "gzip": g, "schemafile": False},
+                       {"k": "write", "recs": [rec(3, val)], "append": True, "gzip": False, "schemafile": False},
+                       {"k": "write", "recs": [rec(4, base), rec(5, val), rec(6, "y")], "append": False, "gzip": not g,
+                        "schemafile": False},
+                       {"k": "write", "recs": [rec(7, val)], "append": False, "gzip": g, "schemafile": True}]
+                start = {"tx": None, "gz": None}
+                start["gz" if g else "tx"] = {"recs": [[cps("0"), cps(base)]], "mtime": 5}
+                yield {"kind": "hist", "op": "hist", "rel": "item", "fields": fields, "start": start, "ops": ops,
+                       "sel": "all" if g else [cps("i-input")], "enc": enc, "stream": "encoding"}
+
+
+def gen_hist_enc(rng):
+    enc = rng.choice(["latin-1", "latin-1", "ascii", "utf-8"])
+    okc = {"latin-1": ["a", "é", "\xff", "\xa0", "@", "\\", "\n", "\x85"], "ascii": ["a", "@", "\\", "\n", "\x7f", "\r"],
+           "utf-8": ["a", "é", "€", "\U0001F600", "\n"]}[enc]
+    badc = {"latin-1": ["€", "Ā", "\U0001F600"], "ascii": ["é", "\x80", "€"], "utf-8": []}[enc]
+    fields = [{"name": cps("c0"), "dt": ":string"}, {"name": cps("n0"), "dt": ":integer"}, {"name": cps("c1"), "dt": ":string"}]
+    fields = fields[:rng.choice([1, 2, 3])]
+
+    def text(bad):
+        t = [rng.choice(okc) for _ in range(rng.choice([1, 2, 3]))]
+        if bad and badc:
+            t.insert(rng.randrange(len(t) + 1), rng.choice(badc))
+        return "".join(t)
+
+    def rec(bad=False):
+        cols = [i for i, f in enumerate(fields) if f["dt"] == ":string"]
+        hit = rng.choice(cols) if bad else None
+        return [({"int": str(v.gen_int(rng))} if f["dt"] == ":integer" else {"str": cps(text(i == hit))})
+                for i, f in enumerate(fields)]
+
+    def rawrec():
+        return [cps(str(v.gen_int(rng))) if f["dt"] == ":integer" else cps(text(False)) for f in fields]
+    ops = []
+    for _ in range(rng.choice([2, 3, 4, 6])):
+        r = rng.random()
+        if r < 0.85:
+            recs = [rec(rng.random() < 0.2) for _ in range(rng.choice([0, 1, 2, 3]))]
+            ops.append({"k": "write", "recs": recs, "append": rng.random() < 0.45, "gzip": rng.random() < 0.4,
+                        "schemafile": rng.random() < 0.2})
+        else:
+            ops.append({"k": "plant", "gz": rng.random() < 0.5, "recs": [rawrec()], "when": rng.choice(["old", "new", "same"])})
+    st = rng.choice(["absent", "tx", "gz", "both_gz"])
+    start = {"tx": None, "gz": None}
+    if st in ("tx", "both_gz"):
+        start["tx"] = {"recs": [rawrec()], "mtime": 4}
+    if st in ("gz", "both_gz"):
+        start["gz"] = {"recs": [rawrec(), rawrec()], "mtime": 9}
+    return {"kind": "hist", "op": "hist", "rel": "item", "fields": fields, "start": start, "ops": ops,
+            "sel": rng.choice(["all", [fields[-1]["name"]]]), "enc": enc, "stream": "encoding"}
+
+
+def malformed_hists():
+    """a record of the wrong width at every position of a three-record request, from every kind of start, for every
+    flag pair: whatever was staged before it must leave no trace (then a normal overwrite and an append)"""
+    fields = [{"name": cps("i-id"), "dt": ":integer"}, {"name": cps("i-input"), "dt": ":string"}]
+    good = [[{"int": str(k)}, {"str": cps("g%d" % k)}] for k in range(3)]
+    for st in ("absent", "tx", "gz", "both_gz"):
+        start = {"tx": None, "gz": None}
+        if st in ("tx", "both_gz"):
+            start["tx"] = {"recs": [[cps("1"), cps("old tx")]], "mtime": 4}
+        if st in ("gz", "both_gz"):
+            start["gz"] = {"recs": [[cps("2"), cps("old gz")]], "mtime": 9}
+        for a in (False, True):
+            for g in (False, True):
+                for pos in range(3):
+                    recs = [list(r) for r in good]
+                    recs[pos] = recs[pos][:1] if (pos + a + g) % 2 else recs[pos] + [{"str": cps("x")}]
+                    ops = [{"k": "write", "recs": recs, "append": a, "gzip": g, "schemafile": pos == 1},
+                           {"k": "write", "recs": good[:2], "append": False, "gzip": g, "schemafile": False},
+                           {"k": "write", "recs": recs, "append": True, "gzip": False, "schemafile": False},
+                           {"k": "write", "recs": good[2:], "append": True, "gzip": False, "schemafile": False}]
+                    yield {"kind": "hist", "op": "hist", "rel": "item", "fields": fields, "start": start, "ops": ops,
+                           "sel": [cps("i-id")], "stream": "malformed_position"}
+
+
+def big_hists(shifts):
+    """relations larger than the 8 KiB / 64 KiB / 128 KiB blocks that buffered readers, shutil.copyfileobj and gzip
+    work in: an overwrite past 64 KiB, an append past 128 KiB, the whole rewritten compressed and read back, with
+    multi-byte characters, CRs and escapes lying across the block boundaries (`shift` moves them byte by byte)"""
+    fields = [{"name": cps("i-id"), "dt": ":integer"}, {"name": cps("i-input"), "dt": ":string"}]
+    units = ["abcdefghij", "é€\U0001F600z", "x\ry\n@w\\", "0123456789" * 9, "ü" * 33, ""]
+
+    def recs(lo, hi):
+        return [[{"int": str(i)}, {"str": cps(units[i % len(units)] * (1 + i % 4))}] for i in range(lo, hi)]
+    for shift in shifts:
+        first = [[{"int": "0"}, {"str": cps("s" * shift)}]]
+        ops = [{"k": "write", "recs": first + recs(1, 1300), "append": False, "gzip": False, "schemafile": False},
+               {"k": "write", "recs": recs(1300, 2600), "append": True, "gzip": False, "schemafile": False},
+               {"k": "write", "recs": first + recs(1, 2600), "append": False, "gzip": True, "schemafile": False},
+               {"k": "write", "recs": first + recs(1, 1300), "append": False, "gzip": False, "schemafile": False}]
+        yield {"kind": "hist", "op": "hist", "rel": "item", "fields": fields, "start": {"tx": None, "gz": None},
+               "ops": ops, "sel": None, "kept": False, "stream": "big"}
+
+
+def api_cases():
+    """the refusals of the public API around the relation files (each must raise its documented exception and leave
+    the directory as it was) and the small accessors"""
+    yield {"kind": "api", "op": "api", "fields": [_F("i-id", ":integer"), _F("i-input", ":string")],
+           "recs": [[{"int": "1"}, {"str": cps("one")}]]}
+
+
+def _F(n, dt, fl=None, c=None):
+    f = {"name": cps(n), "dt": dt}
+    if fl:
+        f["flags"] = fl
+    if c:
+        f["comment"] = c
+    return f
+
+
+def _R(*cells):
+    return [None if c is None else cps(c) for c in cells]
+
+
+def init_fixed():
+    """initialize_database: new and existing directories, stale files of both forms for relations inside and outside
+    the schema, an old relations file with another schema, files=False / True / left out, schema as an object or a path"""
+    T = [{"name": cps("item"), "fields": [_F("i-id", ":integer", [":key"]), _F("i-input", ":string", None, "the text")]},
+         {"name": cps("item-set"), "fields": [_F("i-id", ":integer"), _F("s-id", ":integer")]},
+         {"name": cps("q"), "fields": [_F("c0", ":string")]}]
+    old = [{"name": cps("item"), "fields": [_F("i-input", ":string")]}, {"name": cps("parse"), "fields": [_F("parse-id", ":integer")]}]
+    stale = [{"name": cps("item"), "tx": {"recs": [_R("7", "stale")], "mtime": 9}, "gz": {"recs": [_R("8", "g")], "mtime": 4}},
+             {"name": cps("item-set"), "tx": None, "gz": {"recs": [_R("1", "2")], "mtime": 5}},
+             {"name": cps("q"), "tx": {"recs": [_R("z")], "mtime": 5}, "gz": None},
+             {"name": cps("parse"), "tx": {"recs": [_R("5")], "mtime": 5}, "gz": {"recs": [_R("6")], "mtime": 6}},
+             {"name": cps("set"), "tx": None, "gz": {"recs": [_R("9")], "mtime": 6}}]
+    watch = [cps(n) for n in ("item", "item-set", "q", "parse", "set")]
+    for dst, dst_files, old_schema in (("new", [], None), ("existing", stale, None), ("existing", stale, old),
+                                       ("existing", stale[:2], old), ("existing", [], None)):
+        for files in (None, False, True):
+            for via in ("obj", "str_dir", "path_dir", "path_file", "str_file"):
+                if via != "obj" and (files is None or dst == "new"):
+                    continue
+                yield {"kind": "init", "op": "init", "schema": T, "files": files, "dst": dst, "dst_files": dst_files,
+                       "old_schema": old_schema, "via": via, "watch": watch}
+
+
+def gen_init(rng):
+    rel = rng.sample(RELNAMES, rng.choice([1, 2, 3]))
+    T = [{"name": cps(n), "fields": gen_fields(rng)} for n in rel]
+    others = [n for n in RELNAMES if n not in rel]
+    around = [{"name": cps(n), "fields": gen_fields(rng)} for n in rel + rng.sample(others, 2)]
+    dst = rng.choice(["new", "existing", "existing", "existing"])
+    dst_files = [f for f in gen_files(rng, around, p_absent=0.25) if f["tx"] is not None or f["gz"] is not None] \
+        if dst == "existing" else []
+    return {"kind": "init", "op": "init", "schema": T, "files": rng.choice([None, False, True, True]), "dst": dst,
+            "dst_files": dst_files, "old_schema": around[:2] if dst == "existing" and rng.random() < 0.5 else None,
+            "via": rng.choice(["obj", "obj", "str_dir", "path_dir", "path_file", "str_file"]),
+            "watch": [t["name"] for t in around]}
+
+
+def db_dup_fixed():
+    """a source relation with a repeated column name and records narrower / wider than its schema: the LAST column of
+    a name that the record is wide enough to have is the one copied (remake_last / remake_absent / fieldIndex_last)"""
+    S = [{"name": cps("item"), "fields": [_F("x", ":string"), _F("y", ":string"), _F("x", ":string")]}]
+    files = [{"name": cps("item"), "tx": {"recs": [_R("1", "2", "3"), _R("first", "only two"), _R("a", "b", "c", "d"),
+                                                  _R(None, "m", None), _R("solo")], "mtime": 5}, "gz": None}]
+    targets = [[{"name": cps("item"), "fields": [_F("x", ":string"), _F("z", ":string")]}],
+               [{"name": cps("item"), "fields": [_F("y", ":string"), _F("x", ":string"), _F("x", ":string")]}],
+               S]
+    for T in targets:
+        for dst in ("inplace", "new"):
+            for autocast in (False, True):
+                # a typed source checks the width of every line (TSDBError): full-width records only there
+                src = files if not autocast else [dict(files[0], tx={"recs": [r for r in files[0]["tx"]["recs"] if len(r) == 3],
+                                                                     "mtime": 5})]
+                yield {"kind": "db", "op": "db", "src_schema": S, "src_files": src, "src_autocast": autocast, "dst": dst,
+                       "dst_files": None if dst == "inplace" else [], "names": None, "names_as": "list", "schema": T,
+                       "schema_via": "obj", "gzip": autocast, "watch": [cps("item")],
+                       "sel": {"item": "all" if autocast else [cps("x")]}, "stream": "duplicate_column"}
+
+
+def db_enc_fixed():
+    """write_database with encodings: source read under one, destination written under another (or the same, then
+    also in place); Latin-1 letters survive a Latin-1 / UTF-8 destination and are refused by an ASCII one; a schema
+    handed over as a directory or file path (str and Path); the destination being a plain file"""
+    S = [{"name": cps("item"), "fields": [_F("i-id", ":integer", [":key"]), _F("i-input", ":string"), _F("x", ":string")]},
+         {"name": cps("q"), "fields": [_F("c0", ":string")]}]
+    files = [{"name": cps("item"), "tx": {"recs": [_R("1", "é\xff", "a"), _R("2", None, "\xa0@\\")], "mtime": 5}, "gz": None},
+             {"name": cps("q"), "tx": {"recs": [_R("plain")], "mtime": 3}, "gz": {"recs": [_R("ÿ"), _R("e")], "mtime": 8}}]
+    derived = [{"name": cps("q"), "fields": [_F("c0", ":string"), _F("c1", ":string")]},
+               {"name": cps("item"), "fields": [_F("x", ":string"), _F("i-id", ":integer", [":key"], "id"), _F("i-input", ":string")]}]
+    stale = [{"name": cps("item"), "tx": {"recs": [_R("7", "é")], "mtime": 9}, "gz": {"recs": [_R("8", "g")], "mtime": 4}}]
+    watch = [cps("item"), cps("q")]
+    for enc_src, enc in (("latin-1", "latin-1"), ("utf-8", "latin-1"), ("latin-1", "utf-8"), ("latin-1", None),
+                         ("utf-8", "ascii"), (None, None)):
+        for dst in ("inplace", "new", "existing"):
+            if dst == "inplace" and (enc_src or "utf-8") != (enc or "utf-8"):
+                continue
+            for gz in (False, True):
+                for schema, via in ((None, "obj"), (derived, "obj"), (derived, "path_dir" if gz else "str_file"),
+                                    (S, "str_dir" if gz else "path_file")):
+                    T = schema or S
+                    yield {"kind": "db", "op": "db", "src_schema": S, "src_files": files, "src_autocast": False,
+                           "dst": dst, "dst_files": None if dst == "inplace" else [] if dst == "new" else
+                           (stale if enc != "ascii" else [dict(stale[0], tx={"recs": [_R("7", "e")], "mtime": 9})]),
+                           "names": None, "names_as": "list", "schema": schema, "schema_via": via, "gzip": gz,
+                           "dst_spelling": SPELLINGS[(3 * gz + len(via)) % len(SPELLINGS)] if dst == "inplace" else "same",
+                           "watch": watch, "enc_src": enc_src, "enc": enc,
+                           "sel": {uncps(t["name"]): ("all" if gz else [t["fields"][-1]["name"]]) for t in T},
+                           "stream": "encoding"}
+    for gz in (False, True):
+        yield {"kind": "db", "op": "db", "src_schema": S, "src_files": files, "src_autocast": False, "dst": "isfile",
+               "dst_files": [], "names": None, "names_as": "list", "schema": None, "gzip": gz, "watch": watch,
+               "enc_src": "latin-1", "enc": "latin-1", "sel": {}, "stream": "destination_is_a_file"}
+
 # ---------------------------------------------------------------- the check
 
 class C09(Check):
     pid = "C09"
+    props_modules = ["Verif.C09.Props", "Verif.C09.FsProps"]
     quick_cases = 1000
     thorough_cases = 6000
     rule = ("hist: one relation of 1-5 typed columns, start in {absent, plain, gz, both with plain newer / gz "
@@ -760,7 +1106,16 @@ class C09(Check):
             "{empty, one record} x append x gzip up to length 3 (quick) / 4 (thorough) from the six starts. db: 1-4 "
             "source relations, target schema None / same / derived by dropping, adding, reordering columns and "
             "relations, names None or a sub-list given as list / tuple / one-shot iterator / generator (5% with an unknown name), in place / new directory / existing "
-            "directory with stale files in both forms, gzip flag. Non-trivial: at least one write accepted (hist) "
+            "directory with stale files in both forms, gzip flag. Round 6: the iterable handed to tsdb.write observes the "
+            "directory at every pull; one pair of Database objects stays open through each history; encoding= (utf-8 / "
+            "latin-1 / ascii, boundary characters U+7F U+80 U+FF U+100, unencodable records at every position) through "
+            "write, write_database, Database, open; a record of the wrong width at every position x start x flags; "
+            "relations of 100-200 KiB across the 8/64/128 KiB blocks (oracle only); the directory spelled as str / Path / "
+            "trailing slash / '..' / relative after chdir / symlink for write and for in-place and existing-directory "
+            "write_database; schema handed over as str / Path of a directory or relations file; an old relations file in "
+            "the destination; a source relation with a repeated column name and records narrower / wider than it; "
+            "select_from with default columns; initialize_database (new / existing directory, stale files inside and "
+            "outside the schema, files flag); the API refusals. Non-trivial: at least one write accepted (hist) "
             "or one relation written (db); distinct by JSON text.")
     assumptions = [
         "file system and gzip: a relation is a pair of optional line lists with logical mtimes; gzip is the "
@@ -899,17 +1254,24 @@ class C09(Check):
         yield from exhaustive_hists(3 if tier == "quick" else 4)
         yield from cr_hists()
         yield from single_col_hists()
+        yield from api_cases()
+        yield from enc_hists()
+        yield from malformed_hists()
+        yield from big_hists((0, 1) if tier == "quick" else range(8))
         yield from db_fixed()
+        yield from db_enc_fixed()
+        yield from db_dup_fixed()
+        yield from init_fixed()
         yield from schema_rt_fixed()
         yield from schema_parse_fixed()
         for i in range(n):
             k = i % 20
             if k < 6:
-                yield gen_db(rng)
+                yield gen_db(rng) if i % 40 != 5 else gen_init(rng)
             elif k < 14:
                 yield gen_hist(rng)
             elif k < 16:
-                yield gen_hist_cr(rng)
+                yield gen_hist_cr(rng) if k == 14 else gen_hist_enc(rng)
             elif k < 18:
                 yield gen_schema_rt(rng, region=(k == 16 or rng.random() < 0.5))
             else:
@@ -921,8 +1283,14 @@ class C09(Check):
             yield from exhaustive_hists(3)
             yield from cr_hists()
             yield from single_col_hists()
+            yield from enc_hists()
+            yield from malformed_hists()
         if "db" in kinds:
             yield from db_fixed()
+            yield from db_enc_fixed()
+            yield from db_dup_fixed()
+        if "init" in kinds or "db" in kinds:
+            yield from init_fixed()
         if kinds & {"schema_rt", "schema_parse", "db"}:
             yield from schema_rt_fixed()
             for _ in range(n // 4):
@@ -941,6 +1309,10 @@ class C09(Check):
                 return self._impl_hist(case, d)
             if case["kind"] == "schema_rt":
                 return self._impl_schema_rt(case, d)
+            if case["kind"] == "init":
+                return self._impl_init(case, d)
+            if case["kind"] == "api":
+                return self._impl_api(case, d)
             if case["kind"] == "schema_parse":
                 with open(os.path.join(d, "relations"), "wb") as f:
                     f.write(uncps(case["text"]).encode("utf-8"))
@@ -963,29 +1335,42 @@ class C09(Check):
     def _impl_hist(self, case, d):
         name = case["rel"]
         fields = mk_fields(case["fields"])
+        enc = case.get("enc")
+        kw = enc_kw(enc)
         tsdb.write_schema(d, {name: fields})
         txp, gzp = os.path.join(d, name), os.path.join(d, name + ".gz")
         st = case["start"]
         if st["tx"] is not None:
             plant_file(txp, [[None if c is None else uncps(c) for c in r] for r in st["tx"]["recs"]], False,
-                       st["tx"]["mtime"])
+                       st["tx"]["mtime"], enc=enc)
         if st["gz"] is not None:
             plant_file(gzp, [[None if c is None else uncps(c) for c in r] for r in st["gz"]["recs"]], True,
-                       st["gz"]["mtime"])
+                       st["gz"]["mtime"], enc=enc)
+        # ONE pair of Database objects lives through the whole history (a reader that stays open across writes)
+        kept = tsdb.Database(d, **kw)
+        kept_auto = tsdb.Database(d, autocast=True, **kw)
 
         def obs(res):
             o = {"res": res}
-            o.update(observe_rel(d, name, True, case.get("sel")))
+            o.update(observe_rel(d, name, True, case.get("sel"), enc))
+            if case.get("kept", True):
+                o["kept"] = guarded(lambda: read_raw(kept, name))
+                o["kept_cast"] = guarded(lambda: read_cast(kept_auto, name))
+                if res == "start":
+                    o["kept_meta"] = [list(kept), len(kept_auto), os.fspath(kept.path) == os.fspath(d)]
             o["listing"] = sorted(os.listdir(d))
             o["digest"] = digest(d)
             return o
         out = [obs("start")]
         for k, op in enumerate(case["ops"]):
+            watched = None
             if op["k"] == "write":
                 recs = [tuple(v.py_val(x) for x in r) for r in op["recs"]]
+                watched = Watched(d, name, recs)
                 try:
-                    tsdb.write(d, name, iter(recs), None if op.get("schemafile") else fields,
-                               append=op["append"], gzip=op["gzip"])
+                    with Spelled(d, op.get("dir_spelling")) as d_arg:
+                        tsdb.write(d_arg, name, watched, None if op.get("schemafile") else fields,
+                                   append=op["append"], gzip=op["gzip"], **kw)
                     res = "ok"
                 except Exception as e:  # noqa: BLE001
                     res = tag(e)
@@ -993,44 +1378,142 @@ class C09(Check):
                 p, q = (gzp, txp) if op["gz"] else (txp, gzp)
                 recs = [[None if c is None else uncps(c) for c in r] for r in op["recs"]]
                 if op["when"] == "old":
-                    plant_file(p, recs, op["gz"], mtime=1)
+                    plant_file(p, recs, op["gz"], mtime=1, enc=enc)
                 elif op["when"] == "new" or not os.path.isfile(q):
-                    plant_file(p, recs, op["gz"], mtime=NEW0 + k)
+                    plant_file(p, recs, op["gz"], mtime=NEW0 + k, enc=enc)
                 else:
-                    plant_file(p, recs, op["gz"], mtime_ns=os.stat(q).st_mtime_ns)
+                    plant_file(p, recs, op["gz"], mtime_ns=os.stat(q).st_mtime_ns, enc=enc)
                 res = "planted"
             else:
                 p = gzp if op["gz"] else txp
                 if os.path.isfile(p):
                     os.unlink(p)
                 res = "removed"
-            out.append(obs(res))
+            o = obs(res)
+            if watched is not None:
+                o["during"] = watched.seen
+                o["tmp_left"] = any(fn.endswith(".tmp") for fn in o["listing"])
+            out.append(o)
         return out
 
-    def _plant_all(self, d, files):
+    def _plant_all(self, d, files, enc=None):
         for f in files:
             n = uncps(f["name"])
             for form, gz in (("tx", False), ("gz", True)):
                 if f[form] is not None:
                     plant_file(os.path.join(d, n + (".gz" if gz else "")),
                                [[None if c is None else uncps(c) for c in r] for r in f[form]["recs"]],
-                               gz, f[form]["mtime"])
+                               gz, f[form]["mtime"], enc=enc)
+
+    def _impl_api(self, case, d):
+        fields = mk_fields(case["fields"])
+        recs = [tuple(v.py_val(x) for x in r) for r in case["recs"]]
+        bare = os.path.join(d, "bare")            # a directory without relations file
+        os.mkdir(bare)
+        dbd = os.path.join(d, "db")
+        os.mkdir(dbd)
+        tsdb.write_schema(dbd, {"item": fields})
+        plainfile = os.path.join(d, "file")
+        with open(plainfile, "wb") as f:
+            f.write(b"x")
+
+        def listing():
+            return {n: sorted(os.listdir(os.path.join(d, n))) for n in ("bare", "db")}
+        before = listing()
+        out = {}
+
+        def t(key, f):
+            r = guarded(f)
+            out[key] = r["err"] if "err" in r else "ok"
+        t("write_into_missing_directory", lambda: tsdb.write(os.path.join(d, "nosuch"), "item", iter(recs), fields))
+        t("write_into_plain_file", lambda: tsdb.write(plainfile, "item", iter(recs), fields))
+        t("write_fields_none_without_relations_file", lambda: tsdb.write(bare, "item", iter(recs)))
+        t("write_fields_none_unknown_relation", lambda: tsdb.write(dbd, "nosuch", iter(recs)))
+        t("database_of_bare_directory", lambda: tsdb.Database(bare))
+        t("database_of_missing_directory", lambda: tsdb.Database(os.path.join(d, "nosuch")))
+        t("read_schema_of_bare_directory", lambda: tsdb.read_schema(bare))
+        t("getitem_unknown_relation", lambda: tsdb.Database(dbd)["nosuch"])
+        t("select_raw_unknown_relation", lambda: list(tsdb.Database(dbd)._select_raw("nosuch")))
+        t("select_from_unknown_relation", lambda: list(tsdb.Database(dbd).select_from("nosuch")))
+        t("select_from_unknown_column", lambda: list(tsdb.Database(dbd).select_from("item", ["nosuch"])))
+        t("getitem_relation_without_file", lambda: tsdb.Database(dbd)["item"])
+        t("get_path_without_file", lambda: tsdb.get_path(dbd, "item"))
+        t("open_without_file", lambda: tsdb.open(dbd, "item"))
+        out["is_database_directory"] = [tsdb.is_database_directory(x) for x in (dbd, bare, plainfile, os.path.join(d, "nosuch"))]
+        out["unchanged"] = listing() == before and not os.path.exists(os.path.join(d, "nosuch"))
+        sfile = os.path.join(d, "a-schema-file")
+        t("write_schema_to_a_file_path", lambda: tsdb.write_schema(sfile, {"item": fields}))
+        back = guarded(lambda: tsdb.read_schema(sfile))
+        out["schema_file_round_trip"] = "ok" in back and dict(back["ok"]) == {"item": fields}
+        t("write_encoding_none", lambda: tsdb.write(dbd, "item", iter(recs), fields, encoding=None))
+        out["after_write_encoding_none"] = guarded(lambda: read_raw(tsdb.Database(dbd), "item"))
+        return out
+
+    def _impl_init(self, case, d):
+        """initialize_database on a new or an existing directory (stale files of both forms, an old relations file)"""
+        dst = os.path.join(d, "dst")
+        if case["dst"] == "existing":
+            os.mkdir(dst)
+            self._plant_all(dst, case["dst_files"])
+            if case.get("old_schema") is not None:
+                tsdb.write_schema(dst, mk_schema(case["old_schema"]))
+        schema = mk_schema(case["schema"])
+        via = case.get("via", "obj")
+        if via != "obj":
+            sdir = os.path.join(d, "schema-dir")
+            os.mkdir(sdir)
+            tsdb.write_schema(sdir, schema)
+            target = sdir if via.endswith("_dir") else os.path.join(sdir, "relations")
+            if via.startswith("path_"):
+                import pathlib
+                target = pathlib.Path(target)
+            schema = target
+        kw = {} if case["files"] is None else {"files": case["files"]}
+        try:
+            tsdb.initialize_database(dst, schema, **kw)
+            res = "ok"
+        except Exception as e:  # noqa: BLE001
+            res = tag(e)
+        out = {"res": res}
+        back = guarded(lambda: tsdb.read_schema(dst))
+        sch = back.get("ok")
+        out["schema"] = {"ok": j_schema(sch)} if sch is not None else back
+        out["rels"] = [observe_rel(dst, uncps(w), sch is not None and uncps(w) in sch, "all") for w in case["watch"]]
+        out["listing"] = sorted(os.listdir(dst)) if os.path.isdir(dst) else None
+        return out
 
     def _impl_db(self, case, d):
         src = os.path.join(d, "src")
         os.mkdir(src)
         S = mk_schema(case["src_schema"])
+        enc_src, enc = case.get("enc_src"), case.get("enc")
         tsdb.write_schema(src, S)
-        self._plant_all(src, case["src_files"])
+        self._plant_all(src, case["src_files"], enc_src)
         if case["dst"] == "inplace":
             dst = src
         else:
             dst = os.path.join(d, "dst")
             if case["dst"] == "existing":
                 os.mkdir(dst)
-                self._plant_all(dst, case["dst_files"])
-        db = tsdb.Database(src, autocast=bool(case.get("src_autocast", False)))
+                self._plant_all(dst, case["dst_files"], enc)
+                if case.get("dst_old_schema") is not None:
+                    tsdb.write_schema(dst, mk_schema(case["dst_old_schema"]))     # superseded by the call
+            elif case["dst"] == "isfile":
+                with open(dst, "wb") as f:
+                    f.write(b"not a directory\n")
+        db = tsdb.Database(src, autocast=bool(case.get("src_autocast", False)), **enc_kw(enc_src))
         schema = mk_schema(case["schema"]) if case["schema"] is not None else None
+        via = case.get("schema_via", "obj")
+        if schema is not None and via != "obj":
+            # the schema is handed over as a path: of a directory holding a relations file, or of such a file
+            sdir = os.path.join(d, "schema-dir")
+            os.mkdir(sdir)
+            tsdb.write_schema(sdir, schema)
+            target = sdir if via.endswith("_dir") else os.path.join(sdir, "relations")
+            if via.startswith("path_"):
+                import pathlib
+                target = pathlib.Path(target)
+            schema = target
         names = [uncps(n) for n in case["names"]] if case["names"] is not None else None
         if names is not None:
             how = case.get("names_as", "list")
@@ -1041,15 +1524,22 @@ class C09(Check):
             elif how == "tuple":
                 names = tuple(names)
         try:
-            tsdb.write_database(db, dst, names=names, schema=schema, gzip=case["gzip"])
+            with Spelled(dst, case.get("dst_spelling")) as dst_arg:
+                tsdb.write_database(db, dst_arg, names=names, schema=schema, gzip=case["gzip"], **enc_kw(enc))
             res = "ok"
         except Exception as e:  # noqa: BLE001
             res = tag(e)
         out = {"res": res}
+        if case["dst"] == "isfile":
+            with open(dst, "rb") as f:
+                out["file_untouched"] = f.read() == b"not a directory\n"
+            return out
         back = guarded(lambda: tsdb.read_schema(dst))
         if "ok" in back:
             sch = back["ok"]
             out["schema"] = {"ok": j_schema(sch)}
+            given = mk_schema(case["schema"] if case["schema"] is not None else case["src_schema"])
+            out["schema_eq"] = dict(sch) == given and list(sch) == list(given)        # Field.__eq__
         else:
             sch = None
             out["schema"] = back
@@ -1057,7 +1547,7 @@ class C09(Check):
         for wn in case["watch"]:
             n = uncps(wn)
             readable = sch is not None and n in sch
-            rels.append(observe_rel(dst, n, readable, case["sel"].get(n) if readable else None))
+            rels.append(observe_rel(dst, n, readable, case["sel"].get(n) if readable else None, enc))
         out["rels"] = rels
         out["listing"] = sorted(os.listdir(dst)) if os.path.isdir(dst) else None
         return out
@@ -1065,12 +1555,26 @@ class C09(Check):
     # ---- model
     def model_request(self, case):
         if case["kind"] == "hist":
+            if case.get("stream") == "big":
+                # relations of 100-200 KiB: the interpreted model needs a minute for one of them, and block sizes are
+                # below its abstraction (a file is a list of lines) anyway: decided by the direct oracle only
+                self.no_request["hist_big_relation"] = self.no_request.get("hist_big_relation", 0) + 1
+                return None
             return {"op": "hist", "fields": [{"name": f["name"], "dt": f["dt"]} for f in case["fields"]],
-                    "start": case["start"], "ops": case["ops"], "sel": case.get("sel")}
+                    "start": case["start"], "ops": case["ops"], "sel": case.get("sel"), "enc": case.get("enc")}
         if case["kind"] == "schema_rt":
             return {"op": "schema_rt", "schema": model_schema(case["schema"])}
         if case["kind"] == "schema_parse":
             return {"op": "schema_parse", "text": case["text"]}
+        if case["kind"] == "api":
+            self.no_request["api_refusals"] = self.no_request.get("api_refusals", 0) + 1
+            return None
+        if case["kind"] == "init":
+            return {"op": "init", "schema": model_schema(case["schema"]), "files": bool(case["files"]),
+                    "dst_files": case["dst_files"] if case["dst"] == "existing" else [], "watch": case["watch"]}
+        if case["dst"] == "isfile":
+            self.no_request["db_destination_is_a_file"] = self.no_request.get("db_destination_is_a_file", 0) + 1
+            return None                       # decided by the direct oracle: TSDBError, file untouched
         sj = model_schema
         if any(f["dt"] == ":float" for sc in (case["src_schema"], case["schema"] or []) for t in sc for f in t["fields"]):
             self.no_request["db_with_float_column"] = self.no_request.get("db_with_float_column", 0) + 1
@@ -1079,7 +1583,8 @@ class C09(Check):
                 "src_autocast": bool(case.get("src_autocast", False)),
                 "dst_files": case["dst_files"] if case["dst"] != "inplace" else None,
                 "names": case["names"], "schema": sj(case["schema"]) if case["schema"] is not None else None,
-                "gzip": case["gzip"], "watch": case["watch"],
+                "gzip": case["gzip"], "watch": case["watch"], "enc": case.get("enc"),
+                "schema_via": case.get("schema_via", "obj"),
                 "sel": [case["sel"].get(uncps(w)) for w in case["watch"]]}
 
     def model_expected(self, case, impl_res):
@@ -1116,6 +1621,21 @@ class C09(Check):
             return []
         if case["kind"] == "schema_parse":
             return []
+        if case["kind"] == "init":
+            return oracle_init(case, res)
+        if case["kind"] == "api":
+            want = {"write_into_missing_directory": "TSDBError", "write_into_plain_file": "TSDBError",
+                    "write_fields_none_without_relations_file": "TSDBError", "write_fields_none_unknown_relation": "KeyError",
+                    "database_of_bare_directory": "TSDBError", "database_of_missing_directory": "TSDBError",
+                    "read_schema_of_bare_directory": "TSDBSchemaError", "getitem_unknown_relation": "TSDBError",
+                    "select_raw_unknown_relation": "TSDBError", "select_from_unknown_relation": "KeyError",
+                    "select_from_unknown_column": "KeyError", "getitem_relation_without_file": "TSDBError",
+                    "get_path_without_file": "TSDBError", "open_without_file": "TSDBError",
+                    "is_database_directory": [True, False, False, False], "unchanged": True,
+                    "write_encoding_none": "ok", "write_schema_to_a_file_path": "ok", "schema_file_round_trip": True,
+                    "after_write_encoding_none": {"ok": [[cps("1"), cps("one")]]}}
+            return [{"clause": "API refusal or accessor differs from the documented behaviour: " + k,
+                     "detail": {"want": w, "got": res.get(k)}} for k, w in want.items() if res.get(k) != w]
         return oracle_db(case, res)
 
     # ---- bookkeeping
@@ -1123,12 +1643,12 @@ class C09(Check):
         if case["kind"] == "hist":
             if not any(o["res"] == "ok" for o in res):
                 return None
-        elif case["kind"] == "schema_rt":
+        elif case["kind"] in ("schema_rt", "init", "api"):
             pass
         elif case["kind"] == "schema_parse":
             if not case["text"]:
                 return None
-        elif res["res"] != "ok" or not any(r.get("tx") or r.get("gz") for r in res["rels"]):
+        elif res["res"] != "ok" or not any(r.get("tx") or r.get("gz") for r in res.get("rels", [])):
             return None
         return super().nontrivial_key(case, res)
 
@@ -1148,9 +1668,29 @@ class C09(Check):
                 inc("schema_rt.comment_without_padding")
         elif case["kind"] == "schema_parse":
             inc("schema_parse:" + ("ok" if "ok" in res else res["err"]))
+        elif case["kind"] == "api":
+            for k, x in res.items():
+                if isinstance(x, str):
+                    inc("api.%s:%s" % (k, x))
+        elif case["kind"] == "init":
+            inc("init.dst:" + case["dst"] + (":old_relations_file" if case.get("old_schema") else ""))
+            inc("init.files:%s" % case["files"])
+            inc("init.schema_via:" + case.get("via", "obj"))
+            inc("init.res:" + res["res"])
+            T = {uncps(t["name"]) for t in case["schema"]}
+            for f in (case["dst_files"] if case["dst"] == "existing" else []):
+                inside = uncps(f["name"]) in T
+                for form in ("tx", "gz"):
+                    if f[form] is not None:
+                        inc("init.stale_file_%s_schema:%s" % ("inside" if inside else "outside", form))
         elif case["kind"] == "hist":
             if case.get("stream"):
                 inc("hist.stream:" + case["stream"])
+            inc("hist.encoding:%s" % (case.get("enc") or "default"))
+            inc("hist.sel:" + ("none" if case.get("sel") is None else "all" if case.get("sel") == "all" else "columns"))
+            if case.get("kept", True):
+                inc("hist.long_lived_readers")
+            inc("hist.records_pulled_while_watching", sum(len(o.get("during") or []) for o in res))
             inc("hist.len:%d" % min(len(case["ops"]), 12))
             st = case["start"]
             both = st["tx"] is not None and st["gz"] is not None
@@ -1163,6 +1703,8 @@ class C09(Check):
                 inc("hist.write:%s%s:%s" % ("append" if op["append"] else "overwrite", "+gzip" if op["gzip"] else "",
                                             o["res"]))
                 inc("hist.write.nrec:%d" % min(len(op["recs"]), 3))
+                if op.get("dir_spelling", "same") != "same":
+                    inc("hist.write.dir_spelling:" + op["dir_spelling"])
                 if prev["tx"] and prev["gz"]:
                     inc("hist.write.on_both_forms")
                 if o["res"] == "ok":
@@ -1171,13 +1713,19 @@ class C09(Check):
                         inc("hist.gzip_requested_but_empty")
             inc("hist.cols:%d" % len(case["fields"]))
         else:
-            inc("db.dst:" + case["dst"])
+            inc("db.dst:" + case["dst"] + (":old_relations_file" if case.get("dst_old_schema") else ""))
             inc("db.schema:" + ("none" if case["schema"] is None else "same" if case["schema"] == case["src_schema"]
                                 else "derived"))
             inc("db.names:" + ("none" if case["names"] is None else "sublist:" + case.get("names_as", "list")))
             if case["names"] is not None and len({tuple(x) for x in case["names"]}) < len(case["names"]):
                 inc("db.names_repeated:" + case["dst"] + (":schema" if case["schema"] is not None else ""))
             inc("db.gzip:%s" % case["gzip"])
+            if case.get("dst_spelling", "same") != "same":
+                inc("db.dst_spelling:%s:%s" % (case["dst"], case["dst_spelling"]))
+            inc("db.encoding:%s->%s" % (case.get("enc_src") or "default", case.get("enc") or "default"))
+            inc("db.schema_via:" + (case.get("schema_via", "obj") if case["schema"] is not None else "no schema"))
+            if any(x == "all" for x in case["sel"].values()):
+                inc("db.select_from_default_columns")
             inc("db.src_autocast:%s" % bool(case.get("src_autocast")))
             if any(f["dt"] == ":float" for t in case["src_schema"] for f in t["fields"]):
                 inc("db.with_float_column")
@@ -1191,9 +1739,9 @@ class C09(Check):
             inc("db.relations_src:%d" % len(case["src_schema"]))
             if any(len({tuple(f["name"]) for f in t["fields"]}) < len(t["fields"]) for t in case["src_schema"]):
                 inc("db.src_duplicate_column")
-            if "err" in res["schema"]:
+            if "err" in res.get("schema", {}):
                 inc("db.schema_unreadable:" + res["schema"]["err"])
-            for r in res["rels"]:
+            for r in res.get("rels", []):
                 if "raw" in r:
                     inc("db.rel_read:" + ("gz" if r["gz"] else "tx" if r["tx"] else "nofile"))
 
@@ -1263,6 +1811,8 @@ def _date_iso(text):
 def _project(rows, fields, sel):
     names = [uncps(f["name"]) for f in fields]
     idx = {n: i for i, n in enumerate(names)}           # last column of that name
+    if sel == "all":
+        sel = [f["name"] for f in fields]               # documented default: every column, in schema order
     return [[r[idx[uncps(c)]] for c in sel] for r in rows]
 
 
@@ -1274,6 +1824,7 @@ def oracle_hist(case, res):
     fields = case["fields"]
     nf = len(fields)
     name = case["rel"]
+    enc = case.get("enc")
     # environment bookkeeping: which physical files exist, with what rows and mtime
     phys = {"tx": None, "gz": None}
     for form in ("tx", "gz"):
@@ -1306,7 +1857,16 @@ def oracle_hist(case, res):
         if o["raw"] != {"ok": [r[0] for r in rows]}:
             fail("raw read differs from last overwrite + later appends (%s)" % why,
                  {"step": step, "want": [r[0] for r in rows], "got": o["raw"]})
-        if o["open"] != {"ok": [cps(n_line([None if c is None else uncps(c) for c in r[0]]) + "\n") for r in rows]}:
+        if "kept_meta" in o and o["kept_meta"] != [[name], 1, True]:
+            fail("a Database does not enumerate its relations / report its path", {"got": o["kept_meta"]})
+        if "selraw" in o and o["selraw"] != o["sel"] and (
+                case.get("sel") != "all" or len({tuple(f["name"]) for f in fields}) == nf):
+            fail("the raw column-selecting read differs from select_from (%s)" % why,
+                 {"step": step, "selraw": o["selraw"], "sel": o["sel"]})
+        if "kept" in o and (o["kept"] != o["raw"] or o["kept_cast"] != o["cast"]):
+            fail("a Database object opened before the writes reads something else than a fresh one (%s)" % why,
+                 {"step": step, "kept": o["kept"], "fresh": o["raw"]})
+        if "open" in o and o["open"] != {"ok": [cps(n_line([None if c is None else uncps(c) for c in r[0]]) + "\n") for r in rows]}:
             fail("tsdb.open lines differ from last overwrite + later appends (%s)" % why,
                  {"step": step, "got": o["open"]})
         if all(len(r[0]) == nf for r in rows):
@@ -1345,9 +1905,24 @@ def oracle_hist(case, res):
             continue
         before, compressed = current()
         malformed = any(len(r) != nf for r in op["recs"])
+        unenc = any(len(r) == nf and not all(encodable("" if c is None else uncps(c), enc)
+                                             for c in _row_expect(fields, r)[0]) for r in op["recs"])
+        # temp-file staging: whenever the records were asked for, the relation files still held their old bytes
+        # and nothing but the one temp file had appeared
+        # (whether the temp file exists yet at that moment is the code's business: compared with the model only)
+        for i, w in enumerate(o.get("during") or []):
+            if not w["same"] or w["stray"]:
+                fail("the relation files changed (or stray files appeared) while the records were still being read",
+                     {"step": step, "pull": i, "seen": w})
+                break
+        if o.get("tmp_left"):
+            fail("a temp file was left in the directory", {"step": step, "listing": o["listing"]})
         if o["res"] == "ok":
             if malformed:
                 return fails          # outside the property: what a malformed record stores is undefined
+            if unenc:
+                fail("a record the encoding cannot represent was accepted", {"step": step, "enc": enc})
+                return fails
             new = [_row_expect(fields, r) for r in op["recs"]]
             content = ((before or []) + new) if op["append"] else new
             want_gz = bool(op["gzip"]) and len(content) > 0
@@ -1362,9 +1937,13 @@ def oracle_hist(case, res):
             elif o["res"] == "TSDBError":
                 if not malformed:
                     fail("write of well-formed records raised TSDBError", {"step": step})
+            elif o["res"] == "ValueError":
+                if not unenc:
+                    fail("write of encodable records raised ValueError", {"step": step, "enc": enc})
             else:
                 fail("write raised an undocumented exception", {"step": step, "res": o["res"]})
-            same = {k2: x for k2, x in o.items() if k2 != "res"} == {k2: x for k2, x in prev.items() if k2 != "res"}
+            skip = ("res", "during", "tmp_left", "kept_meta")
+            same = {k2: x for k2, x in o.items() if k2 not in skip} == {k2: x for k2, x in prev.items() if k2 not in skip}
             if not same:
                 fail("a rejected write changed the stored data", {"step": step, "before": strip(prev), "after": strip(o)})
             check_read(o, step, "after rejected write")
@@ -1392,6 +1971,12 @@ def oracle_db(case, res):
     Tl = case["schema"] if case["schema"] is not None else case["src_schema"]
     T = {uncps(t["name"]): t["fields"] for t in Tl}
     names = [uncps(n) for n in case["names"]] if case["names"] is not None else list(T)
+    if case["dst"] == "isfile":
+        if res["res"] != "TSDBError" or not res.get("file_untouched"):
+            fail("write_database onto an existing plain file did not raise TSDBError leaving the file alone", res)
+        return fails
+    if any(fn.endswith(".tmp") for fn in (res.get("listing") or [])):
+        fail("a temp file was left in the destination directory", res["listing"])
     if any(n not in T for n in names):
         if res["res"] != "KeyError":
             fail("a name outside the destination schema did not raise KeyError", res["res"])
@@ -1402,11 +1987,18 @@ def oracle_db(case, res):
             # first pass rewrote under the new schema, with the old fields - with an autocast source the width
             # check may then raise.  The model follows the code; no claim is made.
             return fails
+        if res["res"] == "ValueError" and case.get("enc") not in (None, "utf-8"):
+            # a character of a source relation that the destination encoding cannot represent: the call is
+            # rejected (what it had written before stays; the model follows the code)
+            srcf = {uncps(f["name"]): f for f in case["src_files"]}
+            if any(not encodable(uncps(c), case["enc"]) for n in names if n in S and n in srcf
+                   for r in (_newer(srcf[n]) or []) for c in r if c is not None):
+                return fails
         fail("write_database raised on a valid request", res["res"])
         return fails
     # schema text round trip
     want_schema = want_schema_of(Tl)
-    if res["schema"] != {"ok": want_schema}:
+    if res["schema"] != {"ok": want_schema} or not res.get("schema_eq"):
         fail("the schema read back differs from the schema written", {"want": want_schema, "got": res["schema"]})
         return fails
     src_files = {uncps(f["name"]): f for f in case["src_files"]}
@@ -1461,6 +2053,11 @@ def oracle_db(case, res):
         sel = case["sel"].get(n)
         if sel and o.get("sel") != {"ok": _project(raw_rows, tf, sel)}:
             fail("select_from differs from the projection of the records", {"relation": n, "got": o.get("sel")})
+        # (with a repeated column name and the default columns, select_from resolves every name to the LAST column of
+        # that name while _select_raw takes the positions: observed, outside the quantifier, not compared)
+        distinct = len({tuple(f["name"]) for f in tf}) == len(tf)
+        if sel and (sel != "all" or distinct) and o.get("selraw") != o.get("sel"):
+            fail("the raw column-selecting read differs from select_from", {"relation": n, "got": o.get("selraw")})
         try:
             typed = [_planted_expect(tf, r)[1] for r in raw_rows]
         except Exception:  # noqa: BLE001 - cell not in the castable spellings (dtype changed by name): skip
@@ -1481,6 +2078,47 @@ def oracle_db(case, res):
     extra = [fn for fn in (res["listing"] or []) if fn not in allowed]
     if extra:
         fail("directory holds unexpected files after write_database", extra)
+    return fails
+
+
+# ---------------------------------------------------------------- oracle: initialize_database
+
+def oracle_init(case, res):
+    fails = []
+
+    def fail(clause, detail):
+        fails.append({"clause": clause, "detail": detail})
+    if res["res"] != "ok":
+        fail("initialize_database raised on a valid request", res["res"])
+        return fails
+    T = {uncps(t["name"]): t["fields"] for t in case["schema"]}
+    if res["schema"] != {"ok": want_schema_of(case["schema"])}:
+        fail("an initialised database does not open with the schema it was given", res["schema"])
+        return fails
+    files = bool(case["files"])
+    had = {uncps(f["name"]): f for f in (case["dst_files"] if case["dst"] == "existing" else [])}
+    listing = {"relations"}
+    for w, o in zip(case["watch"], res["rels"]):
+        n = uncps(w)
+        if n in T:
+            if o["gz"] or o["tx"] != files:
+                fail("a stale file remains for a relation of the schema after initialize_database",
+                     {"relation": n, "tx": o["tx"], "gz": o["gz"], "files": files})
+            elif files and (o.get("raw") != {"ok": []} or o.get("open") != {"ok": []}):
+                fail("a freshly initialised relation is not empty", {"relation": n, "raw": o.get("raw")})
+            elif not files and o.get("raw") != {"err": "TSDBError"}:
+                fail("reading an absent relation does not raise TSDBError", {"relation": n, "raw": o.get("raw")})
+            if files:
+                listing.add(n)
+        else:
+            f = had.get(n)
+            want = (f is not None and f["tx"] is not None, f is not None and f["gz"] is not None)
+            if (o["tx"], o["gz"]) != want:
+                fail("initialize_database touched a relation outside its schema", {"relation": n, "want": want})
+            listing |= {n} if want[0] else set()
+            listing |= {n + ".gz"} if want[1] else set()
+    if set(res["listing"] or []) != listing:
+        fail("directory holds unexpected files after initialize_database", sorted(res["listing"] or []))
     return fails
 
 
